@@ -268,6 +268,9 @@ class Program:
                     tree = ast.parse(src, filename=path)
                 except SyntaxError as e:  # the build is broken; nothing can be decided
                     raise AnalysisError(f'cannot parse {rel}: {e}')
+                if os.environ.get('VERIF_NO_CANON') != '1':
+                    from .canon import canonicalise
+                    tree = canonicalise(tree)
                 self.modules[name] = ModuleInfo(name, path, rel, tree, src, is_pkg)
 
     def module(self, name: str) -> ModuleInfo:
